@@ -1,5 +1,6 @@
 """Correspondence runs per layer: generate cases, run implementation workers and the extracted Coq model, compare.
 Each function takes the Ctx, a case budget and an optional projection (what the calling property observes)."""
+import re
 from tools import vlib, gen
 from tools.layers import base, scan as L_scan, parse as L_parse
 
@@ -67,6 +68,12 @@ def load(ctx, n, project=None, texts=None, loaders=('safe', 'base'), label='cons
     for c, i, m in zip(cases, impl, model):
         if m and m[-1] == 'END UNMODELLED': ctx.count('construct_unmodelled'); continue
         if i and i[-1] == 'END RecursionError': ctx.count('construct_recursion_limit'); continue
+        if c[0].startswith('c'):
+            # LibYAML scans further ahead than the Python scanner: on a document with both a scanner-level and a parser-level defect
+            # the two back-ends may report a different one of the two.  Both reject; the class is compared on the targeted
+            # malformed classes only (C06 direct run).
+            fam = lambda x: [re.sub(r'^END (ScannerError|ParserError)$', 'END Scanner/ParserError', l) for l in x]
+            i, m = fam(i), fam(m)
         keep.append((c, i, m))
         ctx.count('construct_' + c[0] + '_' + (i[-1].split()[1] if i and i[-1].startswith('END') else 'harness'))
         ctx.case(('load',) + tuple(c), nontrivial=len(c[1]) > 0, sample=dict(layer='construct', loader=c[0], text=c[1][:120], outcome=i[-1] if i else None))
@@ -190,6 +197,55 @@ def direct(ctx, kind, payloads, describe=None, label=None):
             ctx.violation(b['what'], sig, sig)
         out.append(r)
     return res
+
+# ---------------------------------------------------------------------------------------------------------------
+# the parser alone on token lists (Model/ParseL.v, the model of the parser-safety theorems)
+# ---------------------------------------------------------------------------------------------------------------
+from tools.layers import parsel as L_parsel
+def token_lists(rng, n, maxlen_exhaustive=2):
+    """bounded-exhaustive short lists over all token kinds between STREAM-START and STREAM-END, random longer ones biased towards
+    grammatical shapes, and raw lists that are not delimited at all"""
+    import itertools
+    inner = [k for k in L_parsel.NAMES if k not in ('StreamStart', 'StreamEnd')]
+    out = [['StreamStart', 'StreamEnd'], ['StreamStart'], [], ['StreamEnd'], ['StreamStart', 'StreamEnd', 'StreamEnd'], ['StreamStart', 'Scalar'], ['Scalar', 'StreamEnd'], ['StreamStart', 'BlockSequenceStart', 'BlockEntry']]
+    for L in range(1, maxlen_exhaustive + 1):
+        for t in itertools.product(inner, repeat=L): out.append(['StreamStart'] + list(t) + ['StreamEnd'])
+    def node(d, flow):
+        r = rng.random(); props = rng.choice([[], [], [], ['Anchor'], ['Tag'], ['Anchor', 'Tag'], ['TagSecondary', 'Anchor'], ['TagVerbatim'], ['TagBang'], ['TagUndef']])
+        if d <= 0 or r < 0.4: return props + rng.choice([['Scalar'], ['ScalarQuoted'], ['Alias'], []])
+        if r < 0.55: return props + ['FlowSequenceStart'] + sum(([x for x in (rng.choice([node(d - 1, True), ['Key'] + node(d - 1, True) + ['Value'] + node(d - 1, True)]))] + ['FlowEntry'] for _ in range(rng.choice([0, 1, 2]))), []) + rng.choice([node(d - 1, True), []]) + ['FlowSequenceEnd']
+        if r < 0.7: return props + ['FlowMappingStart'] + sum((rng.choice([['Key'] + node(d - 1, True) + ['Value'] + node(d - 1, True), node(d - 1, True), ['Key'] + node(d - 1, True)]) + ['FlowEntry'] for _ in range(rng.choice([0, 1, 2]))), []) + ['FlowMappingEnd']
+        if flow: return props + ['Scalar']
+        if r < 0.85: return props + ['BlockSequenceStart'] + sum((['BlockEntry'] + rng.choice([node(d - 1, False), []]) for _ in range(rng.choice([1, 2, 3]))), []) + ['BlockEnd']
+        return props + ['BlockMappingStart'] + sum((rng.choice([['Key'] + node(d - 1, False), ['Key'], []]) + rng.choice([['Value'] + node(d - 1, False), ['Value'] + sum((['BlockEntry'] + node(d - 2, False) for _ in range(2)), []), ['Value'], []]) for _ in range(rng.choice([1, 2, 3]))), []) + ['BlockEnd']
+    while len(out) < n + 8 + sum(len(inner) ** L for L in range(1, maxlen_exhaustive + 1)):
+        docs = []
+        for i in range(rng.choice([1, 1, 2, 3])):
+            head = rng.choice([[], [], ['DocumentStart'], ['Directive', 'DocumentStart'], ['DirectiveTag', 'DocumentStart'], ['Directive', 'Directive', 'DocumentStart'], ['DirectiveV2', 'DocumentStart'], ['DirectiveFoo', 'DocumentStart'], ['DirectiveTag', 'DirectiveTag', 'DocumentStart']])
+            if i > 0 and not head: head = ['DocumentStart']
+            docs += head + node(rng.choice([0, 1, 2, 3]), False) + rng.choice([[], [], ['DocumentEnd'], ['DocumentEnd', 'DocumentEnd']])
+        toks = ['StreamStart'] + docs + ['StreamEnd']
+        r = rng.random()
+        if r < 0.35:                                              # token-level mutation: delete / duplicate / replace / swap
+            for _ in range(rng.choice([1, 1, 2])):
+                if not toks: break
+                i = rng.randrange(len(toks)); m = rng.random()
+                if m < 0.3: del toks[i]
+                elif m < 0.5: toks.insert(i, toks[i])
+                elif m < 0.8: toks[i] = rng.choice(L_parsel.NAMES)
+                elif i + 1 < len(toks): toks[i], toks[i + 1] = toks[i + 1], toks[i]
+        out.append(toks)
+    return out
+
+def parsel(ctx, lists, label='parsel'):
+    if not ctx.models(['parsel']): return None
+    impl = [L_parsel.impl_obs(x) for x in vlib.run_impl('parsel', lists)]
+    model = [L_parsel.model_obs(b) for b in vlib.run_model_cases('parsel', L_parsel.model_lines(lists), end_marker='END')]
+    for t, i in zip(lists, impl):
+        ctx.count('parsel_outcome_' + (i[-1].split()[1] if i and i[-1].startswith('END') else 'harness'))
+        ctx.case(('parsel', tuple(t)), nontrivial=len(t) > 2, sample=dict(layer='parsel', tokens=' '.join(t)[:160], outcome=i[-1] if i else None, events=len(i) - 1))
+    base.compare(ctx, label, lists, impl, model, describe=lambda t: dict(tokens=t))
+    return lists, impl, model
 
 INDICATORS = list("-:?[]{},#&*!|>'\"%a \n")
 def indicator_strings(maxlen):
